@@ -52,7 +52,8 @@ THEMES_R11 = {
  "C19": "rarely used regex features: named groups, (?x) / (?U) / (?R) flags, rare Unicode properties, \\b{start} style assertions, \\A / \\z in the middle, empty alternation branches, counted repetitions near a limit",
  "C20": "re-reading caused by late-accept / look-ahead states, by the restart after a skip, or by error recovery",
 }
-THEMES = {"r10": THEMES_R10}.get(ROUND, THEMES_R11)
+THEMES_R12 = {p: "the CROSSING of two things that are each handled correctly alone - two options, an option and an unusual way of writing the definition, an API call and the state an earlier call left behind, a feature and the position or length at which it is used; pick a pair that earlier rounds have not crossed" for p in ["C%02d" % i for i in range(1, 21)]}
+THEMES = {"r10": THEMES_R10, "r11": THEMES_R11}.get(ROUND, THEMES_R12)
 
 props = [json.loads(l) for l in open("/verif/properties.jsonl")]
 used = []
